@@ -47,6 +47,22 @@ func HashByAlg(alg int64) func() hash.Hash {
 
 var sigHash = map[int64]crypto.Hash{-7: crypto.SHA256, -35: crypto.SHA384, -257: crypto.SHA256, -258: crypto.SHA384, -37: crypto.SHA256, -38: crypto.SHA384}
 
+// ParsePublicKeyAnyType decodes the key material of an FDO PublicKey item without relating it to its type label
+// (for unauthenticated hints such as CUPHOwnerPubKey, where only the key itself matters).
+func ParsePublicKeyAnyType(it *rc.Item) (crypto.PublicKey, error) {
+	if it == nil || it.Kind != rc.Array || len(it.Items) != 3 {
+		return nil, errors.New("public key: not a 3-array")
+	}
+	for _, t := range []uint64{10, 1} {
+		c := it.Clone()
+		c.Items[0] = rc.U(t)
+		if k, err := ParsePublicKey(c); err == nil {
+			return k, nil
+		}
+	}
+	return nil, errors.New("public key: not parseable")
+}
+
 // ParsePublicKey decodes an FDO PublicKey item [type, enc, body].
 func ParsePublicKey(it *rc.Item) (crypto.PublicKey, error) {
 	if it == nil || it.Kind != rc.Array || len(it.Items) != 3 {
